@@ -137,7 +137,9 @@ def check(run, res):
         deleting = meta.get('deletionTimestamp') is not None
         own = FIN in (meta.get('finalizers') or [])
         h = table.get(c['hid'], {})
-        top = h if h.get('kind') != 'sub' else table[h['parent']]
+        top = h
+        while top.get('kind') == 'sub':      # sub-handlers (of any depth) belong to the cause of their top-level ancestor
+            top = table[top['parent']]
         kind = top.get('kind')
         where = f'{c["hid"]} ({kind}) at t={c["t0"]} by {c["inc"]} on {c["name"]} rv={c["rv"]} reason={c["reason"]}'
         if (c['uid'], str(c['rv'])) in deleted_rv and sim.cluster.quirk_final_patch_bumps_rv:
